@@ -177,3 +177,66 @@ void bad_install_must__stale__fp_param_set(int param) {
 		bn_free(p);
 	}
 }
+
+/* HIST-FREE: the 2-adicity is reset before it is accumulated; the map parameter is searched from a fixed start */
+void ok_hist__counts_from_zero(const bn_t p) {
+	ctx_t *ctx = core_get();
+	bn_t t;
+	bn_null(t);
+	RLC_TRY {
+		bn_new(t);
+		ctx->ad2 = 0;
+		bn_sub_dig(t, p, 1);
+		while (bn_is_even(t)) {
+			ctx->ad2++;
+			bn_hlv(t, t);
+		}
+		fp_set_dig(ctx->ep_map_u, 0);
+		do {
+			fp_add_dig(ctx->ep_map_u, ctx->ep_map_u, 1);
+		} while (fp_is_sqr(ctx->ep_map_u));
+		fp_copy(ctx->ep2_frb[0][0], ctx->fp2_p1[1][0]);
+		fp_copy(ctx->ep2_frb[0][1], ctx->fp2_p1[1][1]);
+		fp2_inv(ctx->ep2_frb[0], ctx->ep2_frb[0]);
+	} RLC_CATCH_ANY {
+		RLC_THROW(ERR_CAUGHT);
+	} RLC_FINALLY {
+		bn_free(t);
+	}
+}
+
+/* the counter keeps what the previous selection left: the second selection computes something else */
+void bad_hist_free__accumulates(const bn_t p) {
+	ctx_t *ctx = core_get();
+	bn_t t;
+	bn_null(t);
+	RLC_TRY {
+		bn_new(t);
+		bn_sub_dig(t, p, 1);
+		while (bn_is_even(t)) {
+			ctx->ad2++;
+			bn_hlv(t, t);
+		}
+	} RLC_CATCH_ANY {
+		RLC_THROW(ERR_CAUGHT);
+	} RLC_FINALLY {
+		bn_free(t);
+	}
+}
+
+/* the search for the map parameter continues from the previous curve's value */
+void bad_hist_free__search_continues(void) {
+	ctx_t *ctx = core_get();
+	do {
+		fp_add_dig(ctx->ep_map_u, ctx->ep_map_u, 1);
+	} while (fp_is_sqr(ctx->ep_map_u));
+}
+
+/* the reset happens on one branch only */
+void bad_hist_free__one_branch(int fresh) {
+	ctx_t *ctx = core_get();
+	if (fresh) {
+		ctx->par_len = 0;
+	}
+	ctx->par_len++;
+}
